@@ -169,6 +169,23 @@ def invert(x, m):
   if isinstance(x, int) and isinstance(m, int):
     return int(gmpy2.invert(x, m))
   e = eng()
+  if isinstance(x, SBits) and isinstance(m, int) and m > 1 and \
+      gmpy2.is_prime(m):
+    w_ = x.w
+    if not pysym._fits(m * m, w_):
+      raise PathAbort('inconclusive: width too small for invert')
+    xm = z3.SRem(x.t, z3.BitVecVal(m, w_))
+    xm = z3.If(xm < 0, xm + m, xm)  # x mod m in [0, m)
+    if e.decide(xm == 0):
+      raise ZeroDivisionError('invert() no inverse exists')
+
+    def makeb():
+      w = e.fresh('inv', 'bv', w_)
+      e.assume(z3.And(w >= 0, w < m,
+                      z3.URem(w * xm, z3.BitVecVal(m, w_)) == 1))
+      return (w, x.t)
+
+    return SBits(_memo(_key('invert_bv', x.t, m), makeb)[0])
   if isinstance(x, SBits) or isinstance(m, SBits):
     raise PathAbort('inconclusive: invert on SBits not modelled')
   xt = pysym._int_term(x)
